@@ -129,7 +129,7 @@ static void drain(MxEndpoint &e, int mode, Rng &r, bool final) {
     }
 }
 
-struct Replayed { bool complete, dead; int first_error; Bytes delivered, out; std::vector<int> alerts; bool complete_before_delivery; };
+struct Replayed { bool complete, dead; int first_error; Bytes delivered, out; std::vector<int> alerts; bool complete_before_delivery; long complete_pending = -1; };
 
 static Replayed replay_endpoint(const ConnLog &c, int role, const sslKeys_t *keys, sslSessionId_t *sid, int part, int drainm, uint64_t seed) {
     Rng r(derive(seed, role ? "replay-s" : "replay-c"));
@@ -164,6 +164,7 @@ static Replayed replay_endpoint(const ConnLog &c, int role, const sslKeys_t *key
     o.delivered = concat(e.delivered); o.out = e.out_log;
     for (auto &a : e.alerts_in) { o.alerts.push_back(a.level * 256 + a.desc); }
     o.complete_before_delivery = true; for (auto f : e.delivered_complete) { if (!f) { o.complete_before_delivery = false; } }
+    o.complete_pending = e.complete_pending;
     e.destroy();
     return o;
 }
@@ -261,6 +262,8 @@ static RunResult c18_exec(const Plan &p) {
                     else if (o.dead != c.dead[role]) { field = "dead"; }
                     else if (!c.dead[role] && o.first_error != c.first_error[role]) { field = "error_code"; }   // once dead, which later call reports the error depends on how much was fed after death
                     else if (o.complete_before_delivery != c.complete_before_delivery[role]) { field = "complete_before_delivery"; }
+                    // a partial send inside the last flight: the event must wait for the rest of the flight, as it does when the buffer is drained in one call
+                    else if (o.complete_pending > 0) { field = "complete_reported_with_flight_bytes_unsent"; }
                     std::string where;
                     if (field == "output_bytes") {
                         // locate the first differing byte and the record it falls into (record header types/lengths are in the clear)
